@@ -348,9 +348,7 @@ pub fn render_integer(
 	}
 
 	out.reserve(zp2 as usize);
-	if iv != 0 {
-		out.push_str(zero_prefix);
-	}
+	out.push_str(zero_prefix);
 	for _ in 0..zp2 {
 		out.push('0');
 	}
